@@ -418,6 +418,7 @@ func parse_regexp_groups(regexp_token *Token, regexp string, index int) (AstLite
 
 	// groups are numbered by their opening parenthesis
 	capture_group_number += 1
+	verifCgn("inc")
 	group_number := capture_group_number
 	subexpr, next_index, err := parse_regexp_disjunction(regexp_token, regexp, index)
 	if err != nil {
